@@ -45,6 +45,8 @@ def run(ctx, replay=None):
                 for pids, sg, title, i in monitor(h, recs):
                     if 'C11' in pids:
                         ctx.report('impl-vs-property', {k: v for k, v in sg.items() if k not in ('alloc', 'expected')}, title + ' (asan build)', {'ops': h.lines(), 'failing_line': i})
+    import harrcommon
+    harrcommon.harr_region_engine(ctx, 40 if quick else 300, ('crash', 'timeout'), 'region between inaccessible pages')
     ctx.finish('memory safety and leak freedom: ledger theorems for every history and oracle; tie = event correspondence with the extracted scripts; wrapped-allocator '
                'monitors on corpus + random histories (with and without failed calls); ASan+UBSan+LSan build as failing-input search in the thorough tier',
                extra_cov={'gcov_anchor_functions': gcov_report(ctx, 'h_api'),
